@@ -252,23 +252,24 @@ class C07(Prop):
         from AutoCarver.discretizers import (Discretizer, GroupedList, QualitativeDiscretizer,
                                              QuantitativeDiscretizer)
         cls, p = case["cls"], case["params"]
+        kw_ = dict(case.get("kwargs") or {})
         quant = [f["name"] for f in case["features"] if f["kind"] == "quant"]
         cat = [f["name"] for f in case["features"] if f["kind"] == "cat"]
         ordi = [f["name"] for f in case["features"] if f["kind"] == "ord"]
         orders = {f["name"]: GroupedList(decs(f["order"])) for f in case["features"] if f["kind"] == "ord"}
         if cls == "Discretizer":
             return _NoDev(Discretizer(quantitative_features=quant, qualitative_features=cat, ordinal_features=ordi,
-                                      values_orders=orders, min_freq=p["min_freq"], copy=True, verbose=False))
+                                      values_orders=orders, min_freq=p["min_freq"], copy=True, verbose=False, **kw_))
         if cls == "QuantitativeDiscretizer":
             return _NoDev(QuantitativeDiscretizer(quantitative_features=quant, min_freq=p["min_freq"], copy=True,
-                                                  verbose=False))
+                                                  verbose=False, **{k: v for k, v in kw_.items() if k == "str_nan"}))
         if cls == "QualitativeDiscretizer":
             return _NoDev(QualitativeDiscretizer(qualitative_features=cat, ordinal_features=ordi,
                                                  values_orders=orders, min_freq=p["min_freq"], copy=True,
-                                                 verbose=False))
+                                                 verbose=False, **kw_))
         kw = dict(min_freq=p["min_freq"], quantitative_features=quant, qualitative_features=cat,
                   ordinal_features=ordi, values_orders=orders, max_n_mod=p["max_n_mod"],
-                  output_dtype=p["output_dtype"], dropna=p["dropna"], copy=True, verbose=False)
+                  output_dtype=p["output_dtype"], dropna=p["dropna"], copy=True, verbose=False, **kw_)
         if cls == "BinaryCarver":
             return BinaryCarver(sort_by=p["sort_by"], **kw)
         return ContinuousCarver(**kw)
